@@ -20,7 +20,10 @@ var variants = []variant{
 	{"GOOS=windows", []string{"GOOS=windows", "CGO_ENABLED=0"}},
 }
 
+var verifDirGlobal string
+
 func runThorough(c *Ctx, id string, extra map[string]interface{}) {
+	defer runSensitivity(c, verifDirGlobal, id, extra)
 	base := map[string]bool{}
 	for _, o := range c.Obs {
 		base[o.Rule+"|"+o.Construct] = o.OK
